@@ -102,6 +102,14 @@ def prior_activity(n):
             _PRIOR_COUNTER[0] += 1
             keep.append(EventType("C07_PRIOR_%d" % _PRIOR_COUNTER[0]))
             keep.append({str(i): [i] * (i % 13)})
+    # ... and the stream administration of some other experiment: seed lists for names that this model uses too
+    from pydsol.core.streams import StreamSeedInformation, MersenneTwister
+    other = StreamSeedInformation()
+    for j, nm in enumerate(["default", "arrivals", "service", "routing", "x", "Y", "failures", "repair", "0", ""]):
+        if nm != "default":
+            other.add_stream(nm, MersenneTwister(1000 + j))
+        other.add_seed_values(nm, [900 + 10 * j + k for k in range(6)])
+    keep.append(other)
     del keep[::3]
     return keep
 
@@ -149,7 +157,17 @@ def seeds_through_updater(case):
         def update_seed(self, key, stream, replication_nr):
             stream.set_seed(self.master.next_int(0, 2 ** 31) + replication_nr)
 
-    upd = StreamSeedUpdater({names[0]: [11, 22, 33, 44, 55]})
+    if u["master"] % 2:
+        # the table is the one a StreamSeedInformation object holds (the normal wiring)
+        from pydsol.core.streams import StreamSeedInformation
+        info = StreamSeedInformation()
+        for n in names:
+            if n != "default":
+                info.add_stream(n, streams[n])
+        info.add_seed_values(names[0], [11, 22, 33, 44, 55])
+        upd = StreamSeedUpdater(info.get_seeds())
+    else:
+        upd = StreamSeedUpdater({names[0]: [11, 22, 33, 44, 55]})
     if u.get("fallback", "master") == "master":
         upd.set_fallback_stream_updater(MasterUpdater(u["master"]))
     elif case.get("apply_history"):
@@ -272,6 +290,8 @@ def run_program(case, drive, twice=False):
             # what a pause is for: the user looks at the simulator (prints the event list, its events, the clock)
             el_ = h.sim.eventlist()
             starting_log.append(["looked", len(str(el_) + repr(el_)) > 0, str(h.sim.simulator_time) != ""])
+            for st_ in (getattr(h.model, "stats", None) or {}).values():
+                starting_log.append(stoch.stat_digest(st_))          # ... and at every statistic
             del starting_log[:]
         elif drive[0] == "pause-other":
             # while this run is paused, unrelated work in the process initialises and runs ANOTHER simulator
